@@ -32,6 +32,33 @@ def wal_layout(b):
     return fields, bounds
 
 
+def wal_semantic(b):
+    """byte offsets of the low bytes of the fields INSIDE every frame's payload (bincode, little endian): operation tag,
+    document id, embedding length, sequence number, timestamp - a one-bit change there yields another VALID-looking value
+    (a neighbouring id, a smaller sequence number, another operation), which only the checksum can expose"""
+    out, off = [], 4
+    while off + 4 <= len(b):
+        (n,) = struct.unpack_from("<I", b, off)
+        if n < 36 or off + 4 + n + 4 > len(b):
+            break
+        p = off + 4
+        out += [("op", p, (0, 1)), ("doc_id", p + 4, (0, 1)), ("emb_len", p + 12, (0,)), ("seq", p + n - 16, (0, 1, 2)), ("ts", p + n - 8, (0,))]
+        off += 8 + n
+    return out
+
+
+def snap_semantic(b):
+    """the same for a snapshot payload: version, doc count, dimension, number of documents, first document id, metric, last sequence number"""
+    if len(b) < 16:
+        return []
+    n = struct.unpack_from("<Q", b, 4)[0]
+    if 12 + n + 4 > len(b) or n < 60:
+        return []
+    p = 12
+    return [("version", p, (0,)), ("doc_count", p + 12, (0, 1)), ("dimension", p + 20, (0,)), ("ndocs", p + 28, (0, 1)), ("doc0_id", p + 36, (0, 1)),
+            ("metric", p + n - 12, (0, 1)), ("last_wal_seq", p + n - 8, (0, 1, 2))]
+
+
 def snap_layout(b):
     fields = [("magic", 0, 4), ("size", 4, 8)]
     if len(b) >= 16:
@@ -61,6 +88,18 @@ def faults_for(name, data, newest_wal, rng, tier):
                 offs.add(off + rng.randrange(ln))
         for o in sorted(offs):
             out.append(("flip", o, rng.randrange(8), kind))
+    if name == "MANIFEST":
+        # every digit of every number (version, the committed snapshot's sequence number, the file ids inside the names): the
+        # three low bits turn a digit into other digits
+        import re as _re
+        for m in _re.finditer(rb"[0-9]+", data):
+            span = range(m.start(), m.end()) if m.end() - m.start() <= 6 else [m.start(), m.end() - 2, m.end() - 1]
+            for o in span:
+                for bit in (0, 1, 2):
+                    out.append(("flip", o, bit, "field:digit"))
+    for kind, o, bits in (wal_semantic(data) if name.startswith("wal_") else snap_semantic(data) if name.startswith("snapshot_") else []):
+        for bit in bits:
+            out.append(("flip", o, bit, "field:" + kind))
     if name.startswith("wal_") and name == newest_wal:
         pass  # loss confined to a truncated tail of the newest segment is C01's crash case
     else:
